@@ -152,11 +152,12 @@ Definition covers_qb (s : selector) (sc : scenario) (inputs : list utxo) (fee : 
 
 (* LargestFirst without the pre-step (a present input, or implicit inputs that do not even cover the outputs):
    the added UTxOs are the largest ones (C08_largest_first_order) *)
+Definition no_prestep (sc : scenario) : bool :=
+  negb (is_nil (sc_pre sc)) ||
+  (coin (sc_implicit sc) + coin (sc_mint sc) <?
+   sumQ ByCoin (map o_val (sc_outputs sc)) + sc_deposit sc + match sc_donation sc with Some d => d | None => 0 end).
 Definition lf_clause_applies (strat : strategy) (sc : scenario) : bool :=
-  strategy_eqb strat LargestFirst &&
-  (negb (is_nil (sc_pre sc)) ||
-   (coin (sc_implicit sc) + coin (sc_mint sc) <?
-    sumQ ByCoin (map o_val (sc_outputs sc)) + sc_deposit sc + match sc_donation sc with Some d => d | None => 0 end)).
+  strategy_eqb strat LargestFirst && no_prestep sc.
 Definition lf_added (eff : list utxo) (pre_ids final_ids : list N) : list utxo :=
   filter (fun u => mem_b (u_id u) final_ids && negb (mem_b (u_id u) pre_ids)) eff.
 Definition lf_largest_b (eff : list utxo) (pre_ids final_ids : list N) : bool :=
@@ -219,6 +220,27 @@ Definition judge (strat : strategy) (offered : list utxo) (sc : scenario)
       else Holds
   | _ => Fails 0
   end.
+
+(* Reported insufficiency of the largest-first strategies (C08_largest_first_complete, C08_lfma_complete): all offered
+   UTxOs together do not suffice — in an asset of the target, or in lovelace (then every offered UTxO has been added and
+   [fee] = min_fee() of the builder holding them all) — or, for the ADA-only LargestFirst, an asset of the target is not
+   covered by what the builder holds (the guard of /repo ab61362) *)
+Definition judge_insufficient (strat : strategy) (offered : list utxo) (sc : scenario)
+           (final_ids : list N) (fee : option N) : verdict :=
+  if negb (premises_b offered sc) then NotApplicable else
+  if negb ((strategy_eqb strat LargestFirst || strategy_eqb strat LargestFirstMultiAsset) && no_prestep sc) then NotApplicable else
+  let pre := imap_of_list (sc_pre sc) in
+  let eff := filter_offered (ids pre) offered in
+  let everything := pre ++ eff in
+  if existsb (fun s => negb (covers_qb s sc everything 0)) (demand_selectors sc) then Holds else
+  if strategy_eqb strat LargestFirst &&
+     existsb (fun s => negb (covers_qb s sc (judge_inputs offered pre final_ids) 0)) (demand_selectors sc) then Holds else
+  if forallb (fun u => mem_b (u_id u) final_ids) eff then
+    match fee with
+    | Some f => if negb (covers_qb ByCoin sc everything f) then Holds else Fails 0
+    | None => NotApplicable
+    end
+  else Fails 0.
 
 (* ------------------------------------------------------------------------------------------- *)
 (* Entry points of the extracted driver *)
